@@ -5,7 +5,8 @@ import os, json, random
 from . import common as C
 
 
-CHUNK = 300000
+CHUNK = 300000            # records per piece
+CHUNK_BYTES = 40 << 20    # and bytes per piece (TLC holds the deserialised piece in memory; records with nested expressions are large)
 
 
 def validate(out, module, obsfile, name, classify, workers=8, timeout=3600, count_traces=True):
@@ -14,21 +15,24 @@ def validate(out, module, obsfile, name, classify, workers=8, timeout=3600, coun
     records are validated in pieces (TLC holds the whole deserialised file in memory)."""
     n = C.count_lines(obsfile)
     viols = []
-    if n <= CHUNK:
+    if n <= CHUNK and os.path.getsize(obsfile) <= CHUNK_BYTES:
         pieces = [(obsfile, 0)]
     else:
         pieces = []
         with open(obsfile) as f:
-            k, fh = 0, None
+            k, fh, cnt, size = 0, None, 0, 0
             for i, line in enumerate(f):
-                if i % CHUNK == 0:
+                if fh is None or cnt >= CHUNK or size >= CHUNK_BYTES:
                     if fh:
                         fh.close()
                     pth = "%s.part%d" % (obsfile, k)
                     fh = open(pth, "w")
                     pieces.append((pth, i))
                     k += 1
+                    cnt = size = 0
                 fh.write(line)
+                cnt += 1
+                size += len(line)
             if fh:
                 fh.close()
     last = None
